@@ -30,6 +30,12 @@
 
 namespace mp {
 
+#ifdef MP_VERIF
+/// Verification hook (off by default): when set by a harness,
+/// MiniJSONWriter writes floating-point scalars with 17 significant digits
+inline bool& VerifExactJSONNumbers() { static bool flag = false; return flag; }
+#endif
+
 /// A lightweight JSON writer.
 ///
 /// Does not require an intermediate representation of the data.
@@ -186,6 +192,15 @@ protected:
   template <class Value>
   void DoWriteScalar(const Value& val) {
     MakeScalarIfUnset();
+#ifdef MP_VERIF
+    if constexpr (std::is_floating_point<Value>::value) {
+      if (VerifExactJSONNumbers()) {       // verification harness: no digits lost
+        wrt_.write("{:.17g}", val);
+        ++n_written_;
+        return;
+      }
+    }
+#endif
     wrt_.write("{}", val);
     ++n_written_;
   }
